@@ -162,14 +162,18 @@ def lblock_class(*, persist=False, ainit=False, astop=False, maintask=False, ifv
     if astop:
         async def stop_async(self):
             self._do('stop_async')
-            delay, action = self.cfg.get('astop', (0, None))
-            if delay is None:
-                await asyncio.get_running_loop().create_future()
-            if delay:
-                await asyncio.sleep(delay)
-            _act(self, action)
-            self._do('stop_async_end')
-            await super(cls, self).stop_async()
+            try:
+                delay, action = self.cfg.get('astop', (0, None))
+                if delay is None:
+                    await asyncio.get_running_loop().create_future()
+                if delay:
+                    await asyncio.sleep(delay)
+                _act(self, action)
+                self._do('stop_async_end')
+                await super(cls, self).stop_async()
+            finally:
+                # the coroutine is over, whatever the reason (finished, failed, cancelled at the timeout)
+                self.log.append((_now(), self.name, 'stop_async_exit', self._output is not edzed.UNDEF))
         ns['stop_async'] = stop_async
     if maintask:
         async def _maintask(self):
